@@ -47,6 +47,10 @@ func strictNumeral(text string, want float64) string {
 }
 
 func c15Judge(c *Ctx, cs *Case) {
+	if cs.Gen == "repl-prints" {
+		c20Judge(c, cs)
+		return
+	}
 	c.Begin(cs)
 	var o *Obs
 	m := RunModel(cs.Src, "", false, 0)
@@ -235,6 +239,24 @@ func c15Run(c *Ctx) {
 		}
 		if c.Mine() {
 			c15Judge(c, &Case{Gen: "containers-and-constants-cli", Mode: "cli", Src: src})
+		}
+	}
+	// 4b. a print whose operand fails prints nothing; prints on later interactive lines are unaffected
+	for _, src := range []string{
+		Lines(Var("a", "[1]"), Print(`"before"`), Print("a[5]"), Print(`"AFTER"`)), Lines(Print(`"x" + nope`), Print(`"AFTER"`)), Lines(Print(`"x" + nil`), Print(`"AFTER"`)), Lines(Var("o", "{}"), Print("o.zz"), Print(`"AFTER"`)),
+		Lines(Fun("bad", "", " "+Ret("1 / 0")+" "), Fun("outer", "", " "+Print("bad()")+" "+Ret("2")+" "), Print("outer()"), Print(`"AFTER"`)), Lines(Print("[1, nope]")), Lines(Print("{k: 1 / 0}")),
+	} {
+		if c.Mine() {
+			c15Judge(c, &Case{Gen: "failing-prints", Src: src})
+		}
+		if c.Mine() {
+			c15Judge(c, &Case{Gen: "failing-prints-cli", Mode: "cli", Src: src})
+		}
+	}
+	for _, bad := range []string{Print("nope"), Print("[1][5]"), "1 / 0;"} {
+		lines := []string{Print(`"one"`), bad, Print(`"after"`), Print("[1, \"s\"]"), bad, Print("0.1 + 0.2"), `"echo";`}
+		if c.Mine() {
+			c15Judge(c, &Case{Gen: "repl-prints", Src: strings.Join(lines, "\n"), X: map[string]string{"final_newline": "1", "all_self": "1"}})
 		}
 	}
 	// 5. random nested containers of random leaves
